@@ -424,6 +424,13 @@ fn run_neighbour_mixtures(cx: &mut CaseCx, case: &Value) {
         }
       }
     }
+    // the same measurement and epoch under OTHER thresholds (their shares carry another threshold field)
+    let mut other_t: Vec<(String, Vec<u8>, String, u32)> = vec![];
+    for t2 in [1u32, t + 1, t + 2, t + 256] {
+      if t2 != t {
+        other_t.push((format!("same measurement and epoch under threshold {}", t2), m.clone(), epoch.clone(), t2));
+      }
+    }
     let mut own: Vec<Created> = vec![];
     for i in 0..(t as usize - 1) {
       getrandom::verif::set_group(1 + i as u32);
@@ -432,11 +439,12 @@ fn run_neighbour_mixtures(cx: &mut CaseCx, case: &Value) {
         None => return,
       }
     }
-    for (how, m2, e2) in others {
+    let all_others: Vec<(String, Vec<u8>, String, u32)> = others.into_iter().map(|(h, m2, e2)| (h, m2, e2, t)).chain(other_t.into_iter()).collect();
+    for (how, m2, e2, t2) in all_others {
       let mut foreign: Vec<Created> = vec![];
       for i in 0..(t as usize - 1) {
         getrandom::verif::set_group(60 + i as u32);
-        if let Some(c) = create(cx, &m2, t, &e2, &d) {
+        if let Some(c) = create(cx, &m2, t2, &e2, &d) {
           foreign.push(c);
         }
       }
@@ -462,6 +470,11 @@ fn run_neighbour_mixtures(cx: &mut CaseCx, case: &Value) {
         match guard(|| star_wasm::group_shares(&joined, &epoch)) {
           Ok(None) => cx.count("mixture_none", 1),
           Ok(Some(k)) => {
+            // a threshold-1 sharing is complete with one share: then the key returned must be ITS key, never the base measurement's
+            if t2 == 1 && foreign.iter().any(|f| BASE64_STANDARD.encode(&f.key) == k) && !own.iter().any(|o| BASE64_STANDARD.encode(&o.key) == k) {
+              cx.count("mixture_threshold_one_complete", 1);
+              continue;
+            }
             cx.viol("C17/group_shares-mixture-yields-key/neighbour", format!("{} share(s) of a measurement mixed with share(s) of another input ({}) yield a key ({}...) although no measurement reaches the threshold {}", t - 1, how, k.chars().take(8).collect::<String>(), t), json!({"t": t, "measurement": hexs(&m), "epoch": epoch, "other_measurement": hexs(&m2), "other_epoch": e2, "relation": how}));
             return;
           }
